@@ -156,7 +156,7 @@ Proof.
   intros Hok. cbn [children].
   destruct cs as [|c [|d cs']].
   - cbn [all3_2]. pose proof (sub_cls_union_refl n [] Hok) as G. destruct (sub n (HUnion (map HCls [])) (HUnion (map HCls []))); congruence.
-  - cbn [all3_2]. cbn in Hok. rewrite andb_true_r in Hok. apply Nat.ltb_lt in Hok.
+  - cbn [all3_2]. cbn [forallb] in Hok. rewrite andb_true_r in Hok. apply Nat.ltb_lt in Hok.
     pose proof (sub_cls_refl n c Hok) as G. destruct (sub n (HCls c) (HCls c)); congruence.
   - cbn [all3_2]. pose proof (sub_cls_union_refl n (c :: d :: cs') Hok) as G.
     destruct (sub n (HUnion (map HCls (c :: d :: cs'))) (HUnion (map HCls (c :: d :: cs')))); congruence.
@@ -174,8 +174,8 @@ Proof. apply and3_same_not_RF. Qed.
 
 Theorem refl_never_false h : refl_goal h.
 Proof.
-  induction h using hint_ind2; intros n Hok; (destruct n as [|n]; [split; discriminate|]).
-  - split; [discriminate|]. cbn [eqh kind_of]. cbn. discriminate.
+  induction h using hint_ind2; intros n Hok; (destruct n as [|n]; [split; cbn; discriminate|]).
+  - split; [cbn; discriminate|]. destruct n; cbn; discriminate.
   - (* class *)
     cbn [door_ok] in Hok. apply Nat.ltb_lt in Hok.
     assert (G : forall k, sub k (HCls c) (HCls c) <> RF) by (intros k; now apply sub_cls_refl).
@@ -238,7 +238,7 @@ Proof.
     { intros [|k]; [discriminate|].
       cbn [sub is_any orb branches any3 args_ignorable kind_of]. rewrite Nat.eqb_refl. cbn [negb].
       assert (G : all3_2 (sub k) hs hs <> RF).
-      { apply all3_2_same_not_RF. intros x Hx. rewrite Forall_forall in H. now apply H. }
+      { apply all3_2_same_not_RF. intros x Hx. rewrite Forall_forall in H. apply H; [exact Hx|now apply Hall]. }
       destruct (all3_2 (sub k) hs hs); try congruence; discriminate. }
     split; [apply G|]. cbn [eqh kind_of]. apply eqh_generic, G.
   - (* literals *)
@@ -263,7 +263,7 @@ Proof.
       cbn [children]. destruct cs as [|c [|d cs']]; cbn [all3_2].
       * destruct n as [|n]; [discriminate|]. cbn [eqh kind_of].
         pose proof (sub_cls_union_refl n [] Hok) as G. destruct (sub n (HUnion (map HCls [])) (HUnion (map HCls []))); cbn; congruence.
-      * destruct n as [|n]; [discriminate|]. cbn [eqh kind_of]. cbn in Hok. rewrite andb_true_r in Hok. apply Nat.ltb_lt in Hok.
+      * destruct n as [|n]; [discriminate|]. cbn [eqh kind_of]. cbn [forallb] in Hok. rewrite andb_true_r in Hok. apply Nat.ltb_lt in Hok.
         pose proof (sub_cls_refl n c Hok) as G. destruct (sub n (HCls c) (HCls c)); cbn; congruence.
       * destruct n as [|n]; [discriminate|]. cbn [eqh kind_of].
         pose proof (sub_cls_union_refl n (c :: d :: cs') Hok) as G.
@@ -272,9 +272,323 @@ Proof.
     cbn [door_ok] in Hok. apply andb_true_iff in Hok as [Hm Hv].
     destruct (IHh n Hm) as [S1 E1]. pose proof (vexps_eqb_refl vs Hv) as EV. split.
     + cbn [sub is_any orb branches any3].
-      destruct (sub n h h) eqn:Es; cbn [and3]; try congruence; try discriminate.
-      destruct (eqh n h h) eqn:Ee; cbn [not3]; try congruence; try discriminate.
+      destruct (sub n h h) eqn:Es; try congruence; try discriminate.
       rewrite Nat.eqb_refl. cbn [negb]. rewrite EV. discriminate.
     + cbn [eqh kind_of]. destruct (eqh n h h); cbn [and3]; try congruence; try discriminate.
       rewrite EV. discriminate.
 Qed.
+
+(* ------------------------------------------------------------ 2. transitivity on flat hints *)
+
+(* classes and unions of classes *)
+Definition flat (cs : list nat) : hint := match cs with [c] => HCls c | _ => HUnion (map HCls cs) end.
+
+Definition sub_flat (xs ys : list nat) : bool := forallb (fun x => existsb (issub x) ys) xs.
+
+Lemma sub_cls_cls n c d : sub (S n) (HCls c) (HCls d) = r3_of (issub c d).
+Proof. cbn [sub is_any orb branches any3 args_ignorable origin andb]. destruct (issub c d); reflexivity. Qed.
+
+Lemma any3_classes c ds :
+  any3 (fun br => if is_any br then RT else r3_of (args_ignorable br && issub c (origin br))) (map HCls ds)
+  = r3_of (existsb (issub c) ds).
+Proof.
+  induction ds as [|d ds IH]; [reflexivity|]. cbn [map any3 is_any args_ignorable origin andb existsb].
+  destruct (issub c d); cbn [r3_of orb]; [reflexivity|exact IH].
+Qed.
+
+Lemma sub_cls_union n c ds : sub (S n) (HCls c) (HUnion (map HCls ds)) = r3_of (existsb (issub c) ds).
+Proof. cbn [sub is_any orb branches]. apply any3_classes. Qed.
+
+Lemma sub_cls_flat n c ds : sub (S n) (HCls c) (flat ds) = r3_of (existsb (issub c) ds).
+Proof.
+  unfold flat. destruct ds as [|d [|d' ds]].
+  - reflexivity.
+  - rewrite sub_cls_cls. cbn [existsb]. now rewrite orb_false_r.
+  - apply sub_cls_union.
+Qed.
+
+Lemma all3_r3 {A} (g : A -> bool) l : all3 (fun x => r3_of (g x)) l = r3_of (forallb g l).
+Proof. induction l as [|a l IH]; [reflexivity|]. cbn. destruct (g a); cbn; [exact IH|reflexivity]. Qed.
+
+Lemma any3_r3 {A} (g : A -> bool) l : any3 (fun x => r3_of (g x)) l = r3_of (existsb g l).
+Proof. induction l as [|a l IH]; [reflexivity|]. cbn. destruct (g a); cbn; [reflexivity|exact IH]. Qed.
+
+Lemma all3_ext {A} (f g : A -> r3) l : (forall x, In x l -> f x = g x) -> all3 f l = all3 g l.
+Proof.
+  induction l as [|a l IH]; [reflexivity|]. intros H. cbn. rewrite (H a (or_introl eq_refl)).
+  destruct (g a); try reflexivity. apply IH. intros x Hx. apply H. now right.
+Qed.
+
+Lemma any3_ext {A} (f g : A -> r3) l : (forall x, In x l -> f x = g x) -> any3 f l = any3 g l.
+Proof.
+  induction l as [|a l IH]; [reflexivity|]. intros H. cbn. rewrite (H a (or_introl eq_refl)).
+  destruct (g a); try reflexivity. apply IH. intros x Hx. apply H. now right.
+Qed.
+
+Lemma sub_flat_flat n xs ys : sub (S (S n)) (flat xs) (flat ys) = r3_of (sub_flat xs ys).
+Proof.
+  unfold sub_flat. destruct xs as [|x [|x' xs]].
+  - (* the empty union *) unfold flat at 1. cbn [map]. cbn [sub is_any orb all3]. destruct (is_any (flat ys)); reflexivity.
+  - unfold flat at 1. rewrite sub_cls_flat. cbn [forallb]. now rewrite andb_true_r.
+  - unfold flat at 1. remember (x :: x' :: xs) as l eqn:El.
+    assert (G : sub (S (S n)) (HUnion (map HCls l)) (flat ys)
+                = all3 (fun this => sub (S n) this (flat ys)) (map HCls l)).
+    { assert (U : forall ds, sub (S (S n)) (HUnion (map HCls l)) (HUnion (map HCls ds))
+                             = all3 (fun this => sub (S n) this (HUnion (map HCls ds))) (map HCls l)).
+      { intros ds. cbn [sub is_any orb]. apply all3_ext. intros this Hin. apply in_map_iff in Hin as (c & <- & _).
+        change (any3 (fun that => sub (S n) (HCls c) that) (map HCls ds) = sub (S n) (HCls c) (HUnion (map HCls ds))).
+        rewrite sub_cls_union.
+        rewrite (any3_ext _ (fun that => r3_of (match that with HCls d => issub c d | _ => false end))).
+        - rewrite any3_r3. f_equal. clear. induction ds as [|d ds IH]; [reflexivity|]. cbn [map existsb]. now rewrite IH.
+        - intros that Hin. apply in_map_iff in Hin as (d & <- & _). apply sub_cls_cls. }
+      unfold flat. destruct ys as [|y [|y' ys']]; [apply U|reflexivity|apply U]. }
+    rewrite G. rewrite (all3_ext _ (fun this => r3_of (match this with HCls c => existsb (issub c) ys | _ => false end))).
+    + rewrite all3_r3. f_equal. clear. induction l as [|c l IH]; [reflexivity|]. cbn [map forallb]. now rewrite IH.
+    + intros this Hin. apply in_map_iff in Hin as (c & <- & _). apply sub_cls_flat.
+Qed.
+
+Theorem flat_transitive n m k xs ys zs :
+  ~ In c_Hashable zs ->
+  sub (S (S n)) (flat xs) (flat ys) = RT -> sub (S (S m)) (flat ys) (flat zs) = RT ->
+  sub (S (S k)) (flat xs) (flat zs) = RT.
+Proof.
+  rewrite !sub_flat_flat. intros Hh H1 H2.
+  assert (E1 : sub_flat xs ys = true) by (destruct (sub_flat xs ys); [reflexivity|discriminate]).
+  assert (E2 : sub_flat ys zs = true) by (destruct (sub_flat ys zs); [reflexivity|discriminate]).
+  replace (sub_flat xs zs) with true; [reflexivity|]. symmetry. unfold sub_flat in *.
+  rewrite forallb_forall in *. intros x Hx. specialize (E1 x Hx). apply existsb_exists in E1 as (y & Hy & Hxy).
+  specialize (E2 y Hy). apply existsb_exists in E2 as (z & Hz & Hyz).
+  apply existsb_exists. exists z. split; [exact Hz|].
+  apply (issub_trans x y z); auto. intros ->. now apply Hh.
+Qed.
+
+(* ------------------------------------------------------------ 3. refutations (known findings) *)
+
+(* F13: through typing.Any the relation is not transitive *)
+Lemma trans_refuted_through_any :
+  is_subhint (HCls c_int) HAny = RT /\ is_subhint HAny (HCls c_str) = RT /\ is_subhint (HCls c_int) (HCls c_str) = RF.
+Proof. vm_compute. repeat split. Qed.
+
+(* F12 (fixed in the repository): unrelated metahints no longer compare as subhints *)
+Lemma annotated_unrelated_rejected :
+  let v := VInst [c_object] in
+  is_subhint (HAnnot (HCls c_str) [v]) (HAnnot (HCls c_int) [v]) = RF
+  /\ is_subhint (HAnnot (HCls c_bool) [v]) (HAnnot (HCls c_int) [v]) = RT.
+Proof. vm_compute. split; reflexivity. Qed.
+
+(* F25: a union mixing a mapping hint with a one-argument hint of a wider origin is not even
+   comparable with itself: is_subhint raises *)
+Lemma refl_raises_on_arity_clash :
+  let h := HUnion [HCont s_Collection (HCls c_str); HMap m_Dict (HCls c_str) (HCls c_int)] in
+  is_subhint h h = RX.
+Proof. vm_compute. reflexivity. Qed.
+
+(* ------------------------------------------------------------ 4. soundness on simple hints *)
+From BT Require Import Core.Check Core.GenProofs Core.Sound.
+
+(* classes other than object and Hashable, non-empty unions of non-unions, one-argument containers,
+   mappings and fixed tuples of such: no Any, no ignorable child *)
+Fixpoint simple (h : hint) : bool :=
+  match h with
+  | HCls c => negb (Nat.eqb c c_object) && negb (Nat.eqb c c_Hashable)
+  | HUnion hs =>
+      match hs with [] => false | _ => true end &&
+      (fix all (l : list hint) : bool :=
+         match l with [] => true | x :: l' => simple x && negb (match x with HUnion _ => true | _ => false end) && all l' end) hs
+  | HCont s ch => simple ch && negb (Nat.eqb (sign_origin s) c_Hashable)
+  | HMap m k v => simple k && simple v && negb (Nat.eqb (map_origin m) c_Hashable)
+  | HTuple hs =>
+      (fix all (l : list hint) : bool := match l with [] => true | x :: l' => simple x && all l' end) hs
+  | _ => false
+  end.
+
+Lemma simple_union_members hs : simple (HUnion hs) = true ->
+  forall x, In x hs -> simple x = true /\ match x with HUnion _ => False | _ => True end.
+Proof.
+  cbn [simple]. intros H. apply andb_true_iff in H as [_ H]. revert H.
+  induction hs as [|a l IH]; [intros _ x []|]. intros H x [<-|Hin].
+  - apply andb_true_iff in H as [H _]. apply andb_true_iff in H as [H1 H2]. split; [exact H1|].
+    destruct a; try exact I. discriminate.
+  - apply andb_true_iff in H as [_ H]. now apply IH.
+Qed.
+
+Lemma simple_tuple_members hs : simple (HTuple hs) = true -> forall x, In x hs -> simple x = true.
+Proof.
+  cbn [simple]. induction hs as [|a l IH]; [intros _ x []|]. intros H x [<-|Hin]; apply andb_true_iff in H as [H1 H2]; auto.
+Qed.
+
+Lemma simple_not_ignorable h : simple h = true -> ignorable h = false.
+Proof.
+  induction h using hint_ind2; cbn [simple ignorable]; try discriminate; try reflexivity.
+  - intros Hs. apply andb_true_iff in Hs as [Hs _]. now apply negb_true_iff in Hs.
+  - intros Hs. apply andb_true_iff in Hs as [_ Hs]. induction H as [|a l Ha Hl IH]; [reflexivity|].
+    apply andb_true_iff in Hs as [Hs1 Hs2]. apply andb_true_iff in Hs1 as [Hs1 _].
+    rewrite (Ha Hs1). cbn [orb]. now apply IH.
+Qed.
+
+Lemma simple_not_any h : simple h = true -> is_any h = false.
+Proof. destruct h; cbn; try reflexivity. discriminate. Qed.
+
+Lemma simple_origin h : simple h = true -> origin h <> c_Hashable.
+Proof.
+  destruct h; cbn [simple origin]; intros Hs; try discriminate;
+    apply andb_true_iff in Hs as [_ Hs]; apply negb_true_iff in Hs; now apply Nat.eqb_neq.
+Qed.
+
+Lemma isinst_trans x c d : d <> c_Hashable -> isinst x [c] = true -> issub c d = true -> isinst x [d] = true.
+Proof. rewrite !isinst_single. intros Hd H1 H2. now apply (issub_trans _ c d). Qed.
+
+(* a simple hint whose arguments are all ignorable is a class *)
+Lemma simple_args_ignorable br : simple br = true -> args_ignorable br = true -> exists d, br = HCls d.
+Proof.
+  destruct br; cbn [simple args_ignorable children forallb]; intros Hs Ha; try discriminate.
+  - now exists c.
+  - exfalso. apply andb_true_iff in Hs as [Hne Hs]. destruct hs as [|a l]; [discriminate|].
+    cbn [forallb] in Ha. apply andb_true_iff in Ha as [Ha _].
+    apply andb_true_iff in Hs as [Hs _]. apply andb_true_iff in Hs as [Hs _].
+    now rewrite (simple_not_ignorable a Hs) in Ha.
+  - exfalso. apply andb_true_iff in Hs as [Hs _]. rewrite andb_true_r in Ha. now rewrite (simple_not_ignorable br Hs) in Ha.
+  - exfalso. apply andb_true_iff in Hs as [Hs _]. apply andb_true_iff in Hs as [Hs _]. apply andb_true_iff in Ha as [Ha _].
+    now rewrite (simple_not_ignorable br1 Hs) in Ha.
+Qed.
+
+Section Soundness.
+  Variable pb : nat -> pyval -> bool.
+
+  Definition snd_goal (n : nat) : Prop :=
+    forall a b x, simple a = true -> simple b = true -> sub n a b = RT -> sat pb a x = true -> sat pb b x = true.
+
+  (* an object satisfying one branch of b satisfies b *)
+  Lemma sat_branch b br x : simple b = true -> In br (branches b) -> sat pb br x = true -> sat pb b x = true.
+  Proof.
+    intros Hs Hin Hbr. destruct b; cbn [branches] in Hin; try (destruct Hin as [<-|[]]; exact Hbr).
+    rewrite sat_union_unfold. clear Hs. induction hs as [|a l IH]; [destruct Hin|]. cbn [sat_any].
+    destruct Hin as [<-|Hin]; [now rewrite Hbr|]. rewrite (IH Hin). apply orb_true_r.
+  Qed.
+
+  Lemma branch_simple b br : simple b = true -> In br (branches b) -> simple br = true.
+  Proof.
+    intros Hs Hin. destruct b; cbn [branches] in Hin; try (destruct Hin as [<-|[]]; exact Hs).
+    now apply (simple_union_members hs Hs).
+  Qed.
+
+  Lemma sat_all2_map (hs hs' : list hint) l :
+    List.length hs = List.length hs' ->
+    (forall i h h' y, nth_error hs i = Some h -> nth_error hs' i = Some h' -> sat pb h y = true -> sat pb h' y = true) ->
+    sat_all2 pb hs l = true -> sat_all2 pb hs' l = true.
+  Proof.
+    revert hs' l. induction hs as [|h hs IH]; intros [|h' hs'] l Hlen Hstep Hall; try discriminate.
+    - exact Hall.
+    - destruct l as [|y l]; [discriminate|]. cbn [sat_all2] in *. apply andb_true_iff in Hall as [H1 H2].
+      rewrite (Hstep 0 h h' y eq_refl eq_refl H1). cbn [andb].
+      apply IH; [cbn in Hlen; lia| |exact H2].
+      intros i a a' z Ha Ha'. apply (Hstep (S i)); assumption.
+  Qed.
+
+  Lemma sat_all2_forall (hs : list hint) ch l :
+    (forall h y, In h hs -> sat pb h y = true -> sat pb ch y = true) ->
+    sat_all2 pb hs l = true -> forallb (sat pb ch) l = true.
+  Proof.
+    revert l. induction hs as [|h hs IH]; intros [|y l] Hstep Hall; try discriminate; [reflexivity|].
+    cbn [sat_all2] in Hall. apply andb_true_iff in Hall as [H1 H2]. cbn [forallb].
+    rewrite (Hstep h y (or_introl eq_refl) H1). cbn [andb]. apply IH; [|exact H2].
+    intros a z Ha. apply Hstep. now right.
+  Qed.
+
+  Theorem sound_simple n : snd_goal n.
+  Proof.
+    induction n as [|n IH]; intros a b x Ha Hb Hsub Hsat; [discriminate|].
+    cbn [sub] in Hsub. rewrite (simple_not_any a Ha), (simple_not_any b Hb) in Hsub. cbn [orb] in Hsub.
+    destruct a as [| c | c | hs | s ch | m k v | k | hs | vs | cs | mh vs]; try discriminate.
+    - (* a class *)
+      apply any3_RT in Hsub as (br & Hin & Hbr). pose proof (branch_simple b br Hb Hin) as Hsb.
+      rewrite (simple_not_any br Hsb) in Hbr.
+      destruct (args_ignorable br) eqn:Eig; cbn [andb r3_of] in Hbr; [|discriminate].
+      destruct (issub c (origin br)) eqn:Ei; [|discriminate].
+      destruct (simple_args_ignorable br Hsb Eig) as (d & ->). cbn [origin] in Ei.
+      apply (sat_branch b (HCls d) x Hb Hin). cbn [sat] in *.
+      apply (isinst_trans x c d); auto. apply (simple_origin (HCls d) Hsb).
+    - (* a union *)
+      rewrite sat_union_unfold in Hsat.
+      assert (Hex : exists this, In this hs /\ sat pb this x = true).
+      { clear -Hsat. induction hs as [|a l IHl]; [discriminate|]. cbn [sat_any] in Hsat.
+        apply orb_true_iff in Hsat as [H|H]; [exists a; split; [now left|exact H]|].
+        destruct (IHl H) as (t & Hin & Ht). exists t. split; [now right|exact Ht]. }
+      destruct Hex as (this & Hin & Hthis).
+      pose proof (all3_RT _ _ Hsub this Hin) as Hone.
+      destruct (simple_union_members hs Ha this Hin) as [Hst _].
+      destruct b as [| d | d | bs | t ch' | m' k' v' | k' | bs | ws | ds | mh' ws]; try discriminate;
+        try (now apply (IH this _ x Hst Hb Hone Hthis)).
+      apply any3_RT in Hone as (that & Hin' & Hthat).
+      destruct (simple_union_members bs Hb that Hin') as [Hsthat _].
+      apply (sat_branch (HUnion bs) that x Hb Hin'). now apply (IH this that x).
+    - (* a one-argument container *)
+      apply any3_RT in Hsub as (br & Hin & Hbr). pose proof (branch_simple b br Hb Hin) as Hsb.
+      rewrite (simple_not_any br Hsb) in Hbr. apply (sat_branch b br x Hb Hin).
+      destruct (issub (origin (HCont s ch)) (origin br)) eqn:Eo; cbn [negb] in Hbr; [|discriminate].
+      cbn [sat] in Hsat. apply andb_true_iff in Hsat as [Hi Hitems]. cbn [origin] in Eo.
+      destruct (args_ignorable br) eqn:Eig.
+      + destruct (simple_args_ignorable br Hsb Eig) as (d & ->). cbn [sat origin] in *.
+        apply (isinst_trans x (sign_origin s) d); auto. apply (simple_origin (HCls d) Hsb).
+      + destruct (wrapper_instance (kind_of (HCont s ch)) (kind_of br)) eqn:Ew; cbn [negb] in Hbr; [|discriminate].
+        destruct br as [| d | d | bs | t ch' | m' k' v' | k' | bs | ws | ds | mh' ws]; try discriminate;
+          try (cbn [kind_of] in Ew; destruct (Nat.eqb s s_Tuple); discriminate).
+        * cbn [children List.length Nat.eqb negb all3_2] in Hbr.
+          destruct (sub n ch ch') eqn:Ech; try discriminate.
+          cbn [simple] in Ha, Hsb. apply andb_true_iff in Ha as [Hach _]. apply andb_true_iff in Hsb as [Hsch Hso].
+          cbn [sat]. cbn [origin] in Eo.
+          rewrite (isinst_trans x (sign_origin s) (sign_origin t)); auto;
+            [|apply negb_true_iff in Hso; now apply Nat.eqb_neq].
+          cbn [andb]. destruct (coll_items x) as [l|]; [|reflexivity].
+          rewrite forallb_forall in *. intros y Hy. apply (IH ch ch' y); auto.
+    - (* a mapping *)
+      apply any3_RT in Hsub as (br & Hin & Hbr). pose proof (branch_simple b br Hb Hin) as Hsb.
+      rewrite (simple_not_any br Hsb) in Hbr. apply (sat_branch b br x Hb Hin).
+      destruct (issub (origin (HMap m k v)) (origin br)) eqn:Eo; cbn [negb] in Hbr; [|discriminate].
+      cbn [sat] in Hsat. apply andb_true_iff in Hsat as [Hi Hitems]. cbn [origin] in Eo.
+      destruct (args_ignorable br) eqn:Eig.
+      + destruct (simple_args_ignorable br Hsb Eig) as (d & ->). cbn [sat origin] in *.
+        apply (isinst_trans x (map_origin m) d); auto. apply (simple_origin (HCls d) Hsb).
+      + destruct (wrapper_instance (kind_of (HMap m k v)) (kind_of br)) eqn:Ew; cbn [negb] in Hbr; [|discriminate].
+        destruct br as [| d | d | bs | t ch' | m' k' v' | k' | bs | ws | ds | mh' ws]; try discriminate.
+        * cbn [children List.length Nat.eqb negb all3_2] in Hbr.
+          destruct (sub n k k') eqn:Ek; try discriminate. destruct (sub n v v') eqn:Ev; try discriminate.
+          cbn [simple] in Ha, Hsb.
+          apply andb_true_iff in Ha as [Ha _]. apply andb_true_iff in Ha as [Hak Hav].
+          apply andb_true_iff in Hsb as [Hsb Hso]. apply andb_true_iff in Hsb as [Hsk Hsv].
+          cbn [sat]. cbn [origin] in Eo.
+          rewrite (isinst_trans x (map_origin m) (map_origin m')); auto;
+            [|apply negb_true_iff in Hso; now apply Nat.eqb_neq].
+          cbn [andb]. destruct x; try reflexivity.
+          rewrite forallb_forall in *. intros kv Hkv. specialize (Hitems kv Hkv).
+          apply andb_true_iff in Hitems as [H1 H2].
+          rewrite (IH k k' (fst kv) Hak Hsk Ek H1), (IH v v' (snd kv) Hav Hsv Ev H2). reflexivity.
+    - (* a fixed tuple *)
+      apply any3_RT in Hsub as (br & Hin & Hbr). pose proof (branch_simple b br Hb Hin) as Hsb.
+      rewrite (simple_not_any br Hsb) in Hbr. apply (sat_branch b br x Hb Hin).
+      rewrite sat_tuple_unfold in Hsat. apply andb_true_iff in Hsat as [Hi Hall].
+      destruct (items_of x) as [l|] eqn:El; [|discriminate].
+      destruct (args_ignorable br) eqn:Eig.
+      + destruct (issub c_tuple (origin br)) eqn:Eo; [|discriminate].
+        destruct (simple_args_ignorable br Hsb Eig) as (d & ->). cbn [sat origin] in *.
+        apply (isinst_trans x c_tuple d); auto. apply (simple_origin (HCls d) Hsb).
+      + destruct br as [| d | d | bs | t ch' | m' k' v' | k' | bs | ws | ds | mh' ws]; try discriminate;
+          cbn [kind_of] in Hbr.
+        * (* variadic tuple *)
+          destruct (Nat.eqb t s_Tuple) eqn:Et; [|discriminate]. apply Nat.eqb_eq in Et. subst t.
+          cbn [simple] in Hsb. apply andb_true_iff in Hsb as [Hsch _].
+          cbn [sat]. replace (sign_origin s_Tuple) with c_tuple by reflexivity. rewrite Hi. cbn [andb].
+          unfold coll_items. rewrite El. destruct (issub (type_of x) c_Collection); [|reflexivity].
+          apply (sat_all2_forall hs ch' l); [|exact Hall].
+          intros h y Hh Hy. apply (IH h ch' y); auto; [now apply (simple_tuple_members hs Ha)|].
+          exact (all3_RT _ _ Hbr h Hh).
+        * (* fixed tuple *)
+          destruct (Nat.eqb (List.length hs) (List.length bs)) eqn:Elen; cbn [negb] in Hbr; [|discriminate].
+          apply Nat.eqb_eq in Elen. rewrite sat_tuple_unfold, Hi, El. cbn [andb].
+          apply (sat_all2_map hs bs l Elen); [|exact Hall].
+          intros i h h' y Hh Hh' Hy. apply (IH h h' y); auto.
+          -- apply (simple_tuple_members hs Ha). eapply nth_error_In; eauto.
+          -- apply (simple_tuple_members bs Hsb). eapply nth_error_In; eauto.
+          -- exact (all3_2_RT _ _ _ Hbr Elen i h h' Hh Hh').
+  Qed.
+End Soundness.
